@@ -140,6 +140,8 @@ def run(tier):
                 else:
                     ops.append(st.gen_fwd_op(rng, t, inp=[(c & 0x3f) + 0x40 for c in u], mode=0, cap=cap, argmask=rng.choice([31, 0])))
         hist_cases.append(common.Case("c02-y%d" % hi, ["HOOK trace 1", "HOOK alloc 1"], ops, {"kind": "history"}))
+    # wide generated tables (all opcode families, backward rules incl. nofor multipass/match/swap), cells of the rules
+    cases += st.wide_cases(rng, 200 if tier == "quick" else 3000, per_table=4, back=True, exact=True, tag="c02w", budget=3000000)
     calls = st.run_and_trace(exe, cases, timeout=300)
     calls += st.run_and_trace(exe, hist_cases, timeout=300, batch=1)
     common.run_cases(exe, conv_cases + hyp_cases, batch=4, timeout=300)
